@@ -418,7 +418,8 @@ Definition cmon_delivery (c : ccase) : bool :=
   nats_eqb (sort sends) (sort gots).
 
 (* monitor 4 - rejections: feedback is refused as "not present" exactly for seeds that were never
-   accepted; before Freeze() is called a held seed's feedback is accepted; each accepted seed's
+   accepted (seeds from 2000 on belong to the rounds in which a feedback races a finish of the
+   same seed: there the feedback is accepted or refused as "not present", nothing else); before Freeze() is called a held seed's feedback is accepted; each accepted seed's
    finish succeeds once, any other finish is "not found" *)
 Definition cmon_rejections (c : ccase) : bool :=
   let cl := calls_of c in
@@ -428,7 +429,10 @@ Definition cmon_rejections (c : ccase) : bool :=
   forallb (fun x =>
     match cl_op x with
     | CApi (OFb i) =>
-        if memb Nat.eqb i acc
+        if 2000 <=? i
+        then (* the racing pair: the feedback runs against a finish of the same seed *)
+             res_eqb (cl_res x) ROk || res_eqb (cl_res x) RNotPresent
+        else if memb Nat.eqb i acc
         then negb (res_eqb (cl_res x) RNotPresent)
              && (match freeze_call with
                  | Some p => if cl_ret x <? p then res_eqb (cl_res x) ROk else true
